@@ -14,9 +14,13 @@ PROP = dict(
          "budgets 0-12 with unserviced calls): 3/7 host-call programs (host functions h0..h4,hv of arity 0-4 over "
          "int/float/bool/string declared with #host; direct, nested, first-class and in-function calls), 2/7 status "
          "programs (main completes or fails with each of the 4 error kinds while 1-3 tasks run forever, are blocked on a "
-         "read, have failed or have finished), 1/7 host calls from a task, 1/7 generated single-thread programs. "
+         "read, have failed or have finished), 1/7 host calls from a task, 1/7 generated single-thread programs; plus (quick 150 / thorough 1500) programs in which a "
+         "task prints in a loop for ever while main fails (4 kinds) or completes after k steps, budgets {2,3,7,100,1000000}. Every "
+         "run: at most 20000 calls (never reporting completion or failure is a failure) and two further calls without servicing "
+         "after the report, which must repeat the reported status. "
          "spec_fail per call: steps_consumed <= budget, = instructions executed (hook); Done <=> main executed Stop in "
-         "this call and nothing ran after it; PendingHostFunc/OutOfSteps/MainThreadError agree with the thread flags; "
+         "this call and nothing ran after it; PendingHostFunc/OutOfSteps/MainThreadError agree with the thread flags, in particular a failed main thread is reported "
+         "even when another task has a host call pending; "
          "per run: expected error kind, expected output, expected final value, the host saw exactly the calls and "
          "arguments written in the program (in order) under the function number of its name. Model cases: one scheduler "
          "trace per program (<=2500 steps) and one `hostcall` case per program whose first call is h0/h1; "
